@@ -398,8 +398,13 @@ func genC11Case(t *rapid.T) *C11Case {
 		case 0, 1: // synthesised multi-tag type, several tags / overrides / per-call functions on the same type
 			g, ty := genMultiTagType(t, mg, rapid.IntRange(0, 2).Draw(t, "depth"))
 			k := rapid.IntRange(1, 3).Draw(t, "variants")
+			// a tag that names a rule only some of the variants define (the others meet an unknown name)
+			tagFn := rapid.IntRange(0, 2).Draw(t, "tagFn") == 0 && addTagFn(&ty)
 			for j := 0; j < k; j++ {
 				s := &StructCase{Root: desc.Ptr(ty), Val: desc.V{E: []desc.V{g.genValueFor(ty, 0)}}}
+				if tagFn && rapid.Bool().Draw(t, "bringTagFn") {
+					s.CallFns = []string{"cfn1"}
+				}
 				if rapid.Bool().Draw(t, "hasOv") {
 					s.Unscoped = genOverride(t, ty, mg)
 					for _, f := range ty.Fields {
